@@ -209,6 +209,17 @@ def run(tier):
                     break
                 objs.append(obj)
             if bad:
+                if fs:
+                    # does the same unit compile without the mode flag?  Then the core relies on something only the hosted
+                    # C library (or a non-PIC build) provides - a macro leaking in through the OS's libc headers, say -: that
+                    # is what the property forbids, not a broken analysis
+                    cmd0 = [c_ for c_ in cmd if c_ != fs]
+                    p0 = subprocess.run(cmd0, capture_output=True, text=True, cwd=REPO)
+                    if p0.returncode == 0:
+                        rep.fail('R20.a', 'compile|%s|%s' % (fs, os.path.basename(s)), 'core file %s compiles hosted but not with %s %s %s (%s): it depends on something the hosted C '
+                                 'library headers provide, so it cannot be built for kernel-mode / bare-metal ports' % (s, cc, o, fs, '; '.join(bad)), file=s)
+                        configs_done.append({'cc': cc, 'opt': o, 'mode': fs, 'undefined': None})
+                        continue
                 rep.broke('core does not compile with %s %s %s: %s' % (cc, o, fs, bad))
                 continue
             out = os.path.join(tmp, 'core.o')
